@@ -57,11 +57,19 @@ func Start(dir string, extra ...string) (*Server, error) {
 }
 
 func StartPort(dir string, port int, extra ...string) (*Server, error) {
+	return StartPortHost(dir, port, "127.0.0.1", extra...)
+}
+
+// StartPortHost binds to host ("" = all interfaces, which keeps protected mode on).
+func StartPortHost(dir string, port int, host string, extra ...string) (*Server, error) {
 	if err := os.MkdirAll(dir, 0o755); err != nil {
 		return nil, err
 	}
 	s := &Server{Dir: dir, Port: port, Args: extra, done: make(chan struct{})}
-	args := []string{"-h", "127.0.0.1", "-p", strconv.Itoa(port), "-d", dir}
+	args := []string{"-p", strconv.Itoa(port), "-d", dir}
+	if host != "" {
+		args = append([]string{"-h", host}, args...)
+	}
 	args = append(args, extra...)
 	s.Cmd = exec.Command(ServerBin(), args...)
 	s.LogF = filepath.Join(dir, "server.log")
